@@ -344,9 +344,11 @@ class Zeroconf(QuietLogger):
             info.host_ttl = ttl
             info.other_ttl = ttl
 
-        info.set_server_if_missing()
         await self.async_wait_for_start()
         await self.async_check_service(info, allow_name_change, cooperating_responders, strict)
+        # The name may have been changed to resolve a conflict, a server name
+        # that defaults to the instance name has to follow it
+        info.set_server_if_missing()
         self.registry.async_add(info)
         return asyncio.ensure_future(self._async_broadcast_service(info, _REGISTER_TIME, None))
 
